@@ -67,7 +67,7 @@ KINDS = [
     "derived request (tuple pairs)", "derived request (list overload, tuple items)", "arithmetic on a composition", "derived request (one category at an exponent)",
     "Unknown-type conversions", "Unknown-type values", "ObtainQuantity(u,c,caption)", "ObtainQuantity(u,None,caption)", "GetUnits()/GetInfos()", "GetInfo", "FindSimilarUnitMatches", "IsValidCategory/CheckQuantityType", "quantity getters", "db.Sum/Multiply",
     "Unknown-type values (the caller keeps them)", "Create{Area,Volume}QuantityFromLengthQuantity", "questions about the quantity without a unit",
-    "product (c,u) * (c2,v)", "product (c2,v) * (c,u)",
+    "product (c,u) * (c2,v)", "product (c2,v) * (c,u)", "sum of two units: validity and limits",
 ]  # fmt: skip
 
 
@@ -301,6 +301,15 @@ def run_query(db, q):
             r = [qq.GetValidUnits(), qq.GetUnitName(), qq.GetUnitCaption(), qq.GetCategoryInfo().default_unit, qq.GetComposingUnitsJoiningExponents(), qq.GetCategoryToUnitAndExpsCopy(), qq.ConvertScalarValue(x, v),
                  qq.Convert([x, 1.0], v), qq.MakeCopy() is qq]  # fmt: skip
             qq.CheckValue(x)
+        elif kind == "sum of two units: validity and limits":
+            # the result of + / - is judged by its category as registered *now* (limits, default unit), like a value built directly
+            a, b = Scalar(c, x, u), Scalar(c, 2.0, v)
+            sm, df = a + b, b - a
+            arr = Array(c, [x, 3.0], u) - Array(c, [2.0, -x], v)
+            r = []
+            for o in (sm, df, arr):
+                ci = o.GetQuantity().GetCategoryInfo()
+                r += [o, o.IsValid(), ci.min_value, ci.max_value, ci.default_unit, ci.is_min_exclusive, ci.is_max_exclusive, sorted(o.GetValidUnits() or []), ("category record of the result is the one registered now", ci == db.GetCategoryInfo(c))]
         elif kind == "db.Sum/Multiply":
             q1, q2 = ObtainQuantity(u, c), ObtainQuantity(v, c2)
             r = [db.Multiply(q1, q2, x, 2.0), db.Divide(q1, q2, x, 2.0), db.Sum(q1, q2, x, 2.0), db.Subtract(q2, q1, x, 2.0)]
